@@ -11,7 +11,7 @@
 From Coq Require Import List ZArith Bool.
 Import ListNotations.
 From V Require Import Base.U32 Gen.UptimeConsts C08.Model C08.Proofs C19.Model C19.Proofs C19.Shift.
-From V Require C11.Model C07.Model C07.Proofs C12.Model C04.Model C19.ShiftInputs C19.ShiftOthers.
+From V Require C11.Model C07.Model C07.Proofs C12.Model C04.Model C04.Keepalive C05.Model C19.ShiftInputs C19.ShiftOthers C19.ShiftDevconn.
 Local Open Scope Z_scope.
 
 (* (a) uptime_usec: for ANY sequence of polls (no condition on the time between polls), from any state with
@@ -171,3 +171,41 @@ Example C19_devconn_phase_slips_one_us_per_wrap : forall s, C04.Model.now s = 20
   C04.Model.uptime_usec (ShiftOthers.DC.with_boot 0 s) = 2000000.
 Proof. exact ShiftOthers.DC.phase_slips_one_us_per_wrap. Qed.
 Print Assumptions C19_devconn_phase_slips_one_us_per_wrap.
+
+(* ---------- (e) round 5: keep-alive machine (C04/C05), countdown clock phase (C07), cfg-button corner (C11) ---------- *)
+(* Whole-trace shift invariance over the keep-alive machine the C04 automaton is proved to follow (kstep / krun of
+   C04/Keepalive.v): all uptime seconds shifted by K => same decisions at every tick, state = image under +K *)
+Theorem C19_keepalive_shift_invariance : forall K tmo l s,
+  C05.Model.krun tmo (ShiftDevconn.kshift K s) (map (ShiftDevconn.evshift K) l) = ShiftDevconn.kshift K (C05.Model.krun tmo s l).
+Proof. exact ShiftDevconn.krun_shift. Qed.
+Print Assumptions C19_keepalive_shift_invariance.
+
+Theorem C19_keepalive_verdict_boot_independent : forall K tmo l s,
+  C04.Keepalive.k_bad (C05.Model.krun tmo (ShiftDevconn.kshift K s) (map (ShiftDevconn.evshift K) l)) =
+  C04.Keepalive.k_bad (C05.Model.krun tmo s l).
+Proof. exact ShiftDevconn.krun_shift_verdict. Qed.
+Print Assumptions C19_keepalive_verdict_boot_independent.
+
+(* the two timer decisions of supla_esp_devconn_timer1_cb / _watchdog_cb (C05/Proofs: timer1_cb_decide, watchdog_cb_decide) *)
+Theorem C19_devconn_decisions_shift : forall K up ls lr tmo nw,
+  C04.Keepalive.t1_decide (up + K) (ls + K) (lr + K) tmo = C04.Keepalive.t1_decide up ls lr tmo /\
+  C05.Model.wd_decide (up + K) (lr + K) tmo (nw + K) = C05.Model.wd_decide up lr tmo nw.
+Proof. exact (fun K up ls lr tmo nw => conj (ShiftDevconn.t1_decide_shift K up ls lr tmo) (ShiftDevconn.wd_decide_shift K up lr tmo nw)). Qed.
+Print Assumptions C19_devconn_decisions_shift.
+
+(* countdown: same sub-millisecond phase => every ideal reading differs by exactly k ms *)
+Theorem C19_countdown_clock_phase : forall s s' t k,
+  C07.Model.tb s' = C07.Model.tb s -> C07.Model.cnt0 s' = C07.Model.cnt0 s + 1000 * k ->
+  let a := C07.Model.cnt0 s + (t - C07.Model.tb s) in let a' := C07.Model.cnt0 s' + (t - C07.Model.tb s') in
+  0 <= a -> 0 <= a' -> a / 4294967296 <= a mod 1000 -> a' / 4294967296 <= a' mod 1000 ->
+  C07.Proofs.rd s' t = C07.Proofs.rd s t + k.
+Proof. exact ShiftOthers.CD.countdown_clock_phase. Qed.
+Print Assumptions C19_countdown_clock_phase.
+
+(* the hypothesis cfg_btn = false of C19_input_shift_invariance is necessary (from the INITIAL state only: from stamped
+   states C19_input_shift_events covers configuration buttons, hold and ten-toggle rule included) *)
+Example C19_input_cfgbtn_initial_window_depends_on_boot :
+  rev (C11.Model.outs (C11.Model.run (ShiftInputs.cfgbtn_cfg 1) 1 ShiftInputs.cfgbtn_evs)) <>
+  rev (C11.Model.outs (C11.Model.run (ShiftInputs.cfgbtn_cfg 5000001) 1 ShiftInputs.cfgbtn_evs)).
+Proof. destruct ShiftInputs.cfgbtn_initial_window_depends_on_boot as [-> ->]. intro H; discriminate H. Qed.
+Print Assumptions C19_input_cfgbtn_initial_window_depends_on_boot.
